@@ -775,6 +775,23 @@ func (P *Prog) checkPrecedence(r *Result) {
 	} else {
 		r.broken("anchor IssueFromTest not found")
 	}
+	// the test-level formatter is applied only where the issue is built from that test
+	for _, f2 := range P.Funcs {
+		eachInstr(f2, func(_ *ssa.BasicBlock, _ int, in ssa.Instruction) {
+			ci := callOf(in)
+			if ci == nil || !ci.dynamic {
+				return
+			}
+			if _, f := loadOfField(cv(ci.instr.Common().Value)); f != nil && sameField(f, structField(R.Test, "IssueFmtFunc")) {
+				c := fname(f2) + "#calls-test-formatter"
+				if fname(f2) == "(*zog/internals.SchemaCtx).IssueFromTest" {
+					r.ok("C11/precedence", c, P.ipos(in), "test formatter applied while building the issue from that test")
+				} else {
+					r.bad("C11/precedence", c, P.ipos(in), "a test's Message/MessageFunc formatter is applied outside IssueFromTest: issues that do not come from that test (required, coerce, post-transform, a sibling's) can receive its message, ahead of the execution and global formatters")
+				}
+			}
+		})
+	}
 	// ExecCtx.AddIssue: Fmter called iff Message == ""
 	if fn := P.fn("(*zog/internals.ExecCtx).AddIssue"); fn != nil {
 		fmterF := structField(R.ExecCtx, "Fmter")
